@@ -198,3 +198,31 @@ def build_qratio(sc):
             "assumptions": []}
 static_unit("distance_laws", ["C08"], "distance_laws.rs", ["lemma_total_laws", "lemma_clear_checksum", "lemma_body_sum", "lemma_max_attained"],
             "hash::FuzzyHash::{compare_with_config, max_distance, clear_checksum} (laws over the part contracts)")
+
+
+# ------------------------------------------------------------------ hash_buf_for (C01 composition)
+@unit("hash_buf", ["C01"], rlimit=60)
+def build_hash_buf(sc):
+    g = src(sc, "generate_easy.rs")
+    sig, body = extract.fn_text(g, "hash_buf_for")
+    lines = extract.dedent(body)
+    report = []
+    out = []
+    for l in lines:
+        if "Generator::<T>::new()" in l:
+            nl = l.replace("Generator::<T>::new()", "G::new()")
+            report.append({"rule": "R4 (monomorphic generator type replaced by the abstract GeneratorType it implements)", "original": l.strip(), "rewritten": nl.strip()})
+            out.append(nl)
+        else:
+            out.append(l)
+    if len(report) != 1:
+        raise extract.ExtractError("lost-anchor: Generator::<T>::new() in hash_buf_for")
+    text = "use vstd::prelude::*;\nverus! {\n" + read("hash_buf_prelude.rs")
+    text += "pub fn hash_buf_for<G: GeneratorType>(buffer: &[u8]) -> (r: Result<G::Output, GeneratorError>)\n" \
+            "    ensures r == G::result_of(buffer@)\n{\n" + "\n".join("    " + l for l in out) + "\n}\n"
+    text += "\n} // verus!\nfn main() {}\n"
+    return {"text": text, "expect": ["hash_buf_for"], "function": "generate_easy::hash_buf_for",
+            "functions": {"hash_buf_for": "generate_easy::hash_buf_for"},
+            "domain": "all buffers, all hash variants (composition of the new/update/finalize contracts)",
+            "fidelity": {"unit": "hash_buf", "rewrites": report, "dropped": ["generic parameter T: ConstrainedFuzzyHashType (replaced by the abstract generator G = Generator<T>)"]},
+            "assumptions": ["Verus unit hash_buf: Generator<T>::{new,update,finalize} by their abstract contracts (fed = [] / fed ++ data / result_of(fed)); the concrete meaning of result_of is fixed by the update unit and the finalize.* Kani obligations"]}
